@@ -668,6 +668,20 @@ func (g *coreGen) stmt(d int) Node {
 	case 4:
 		return cn("if", "c", map[string]any(g.anyExpr(2)), "th", map[string]any(g.block(d-1, 1+g.r.Intn(2))), "el", map[string]any(cn("none")))
 	case 5:
+		if g.r.Intn(3) == 0 {
+			// the condition is a plain variable (or an assignment to one) that the taken branch then makes falsy /
+			// truthy: the branch was chosen by the value the condition had, and exactly one branch runs
+			v := g.intVar()
+			var cond Node = cn("var", "n", v)
+			if g.r.Intn(4) == 0 {
+				cond = cn("asg", "n", v, "op", "=", "e", map[string]any(g.num(1+g.r.Intn(3))))
+			}
+			th := g.block(d-1, 1+g.r.Intn(2))
+			el := g.block(d-1, 1+g.r.Intn(2))
+			th["b"] = append([]any{map[string]any(cn("print", "args", []any{map[string]any(cn("str", "v", "then"))})), map[string]any(cn("expr", "e", map[string]any(cn("asg", "n", v, "op", "=", "e", map[string]any(g.num(0))))))}, th["b"].([]any)...)
+			el["b"] = append([]any{map[string]any(cn("print", "args", []any{map[string]any(cn("str", "v", "else"))})), map[string]any(cn("expr", "e", map[string]any(cn("asg", "n", v, "op", "=", "e", map[string]any(g.num(2))))))}, el["b"].([]any)...)
+			return cn("if", "c", map[string]any(cond), "th", map[string]any(th), "el", map[string]any(el))
+		}
 		return cn("if", "c", map[string]any(g.boolExpr(2)), "th", map[string]any(g.block(d-1, 1+g.r.Intn(2))), "el", map[string]any(g.block(d-1, 1+g.r.Intn(2))))
 	case 6, 7:
 		if g.recursive {
